@@ -8,7 +8,7 @@ import z3
 
 from .types import (T, INT, BOOL, BYTES, STR, NONE, ANY, OPT, LIST, SET, MAP, TUPLE, CLS, Outside, to_sort, opt_sort,
                     tuple_sort, from_annotation, BYTES_SORT, BV8)
-from .engine import (RangeV, IterV, Engine, V, Ref, HeapObj, ExcVal, Raised, Closure, BoundMethod, BuiltinMethod, LocalClass, GhostNS,
+from .engine import (EmptyMap, EMPTY_MAP, RangeV, IterV, Engine, V, Ref, HeapObj, ExcVal, Raised, Closure, BoundMethod, BuiltinMethod, LocalClass, GhostNS,
                      Frame, State, is_concrete, bytes_term)
 
 
@@ -263,10 +263,17 @@ class Interp(Engine):
 
     def lookup(self, name, st):
         f = st.frame
+        hops = 0
         while f is not None:
             if name in f.vars:
                 return f.vars[name]
-            f = st.stack[f.parent] if f.parent is not None else None
+            if f.captured is not None and name in f.captured:
+                return f.captured[name]
+            nxt = st.stack[f.parent] if f.parent is not None and f.parent < len(st.stack) else None
+            f = nxt if nxt is not f else None
+            hops += 1
+            if hops > 64:
+                raise Outside("scope chain too deep")
         g = st.frame.globs
         if name in g:
             return g[name]
@@ -284,6 +291,23 @@ class Interp(Engine):
         if m is None:
             raise Outside("expression %s at line %s" % (type(e).__name__, getattr(e, 'lineno', '?')))
         return m(e, st)
+
+    def capture(self, st):
+        """snapshot of the variables visible from the current activation (for closures / local classes)"""
+        cap = {}
+        f = st.frame
+        chain = []
+        hops = 0
+        while f is not None and hops < 64:
+            chain.append(f)
+            nxt = st.stack[f.parent] if f.parent is not None and f.parent < len(st.stack) else None
+            f = nxt if nxt is not f else None
+            hops += 1
+        for f in reversed(chain):
+            if f.captured:
+                cap.update(f.captured)
+            cap.update(f.vars)
+        return cap
 
     def ev_list(self, es, st):
         """evaluate expressions left to right; yields (state, [values]) or (state, Raised)"""
@@ -517,6 +541,8 @@ class Interp(Engine):
                 container = h.val
             else:
                 raise Outside("`in` on object")
+        if isinstance(container, EmptyMap):
+            return False
         if isinstance(container, RangeV):
             if not (is_concrete(container.step) and container.step == 1):
                 raise Outside("`in` on a stepped range")
@@ -788,6 +814,9 @@ class Interp(Engine):
                 return
             yield st, BuiltinMethod(v, name)
             return
+        if isinstance(v, EmptyMap):
+            yield st, BuiltinMethod(v, name)
+            return
         if isinstance(v, (int, bytes, str, list, tuple, dict)) and not isinstance(v, bool) or v is None:
             if v is None:
                 yield st, Raised(ExcVal(AttributeError))
@@ -951,6 +980,11 @@ class Interp(Engine):
                 v = h.val
             else:
                 raise Outside("subscript on object")
+        if isinstance(v, EmptyMap):
+            if st.spec:
+                raise Outside("index into an empty map in a specification")
+            yield st, Raised(ExcVal(KeyError, origin=line))
+            return
         if isinstance(v, dict):
             if is_concrete(k) or isinstance(k, tuple):
                 if k in v:
@@ -1081,7 +1115,7 @@ class Interp(Engine):
     def ev_Lambda(self, e, st):
         fd = ast.FunctionDef(name='<lambda>', args=e.args, body=[ast.Return(value=e.body, lineno=e.lineno, col_offset=0)],
                              decorator_list=[], returns=None, lineno=e.lineno, col_offset=0)
-        yield st, Closure(fd, len(st.stack) - 1, st.frame.globs, '<lambda>')
+        yield st, Closure(fd, self.capture(st), st.frame.globs, '<lambda>')
 
     def ev_Call(self, e, st):
         yield from self.call_expr(e, st)
